@@ -6,6 +6,7 @@
 //   sink file = a real tbox::log::AsyncFileSink writing under /tmp/C09-<pid>-<n>/ (removed at case end)
 // Never prints timestamps or OS thread ids (thread ids are mapped to thread tags).
 #include "vh.h"
+#include <cerrno>
 #include <dlfcn.h>
 #include <fcntl.h>
 #include <stdarg.h>
@@ -57,6 +58,7 @@ extern "C" ssize_t write(int fd, const void *buf, size_t count) {
             ssize_t n = readlink(link.c_str(), path, sizeof(path) - 1);
             if (n > 0 && std::string(path, n).compare(0, ip::log_prefix.size(), ip::log_prefix) == 0) {
                 uint64_t v = ip::plan[ip::plan_pos++];
+                if (v == 99999) { ++ip::injected; errno = EINTR; return -1; }     // interrupted before anything was written
                 if (v > 0) { ++ip::injected; lk.unlock(); return ip::real_write()(fd, buf, std::min<uint64_t>(v, count - 1)); }
             }
         }
